@@ -804,7 +804,9 @@ def P12(m, R):
                 add('seed-spurious', 'key 0 is seeded although nothing is active at the start of the slice', scen)
             if len(seeds) > 1:
                 add('seed-twice', 'key 0 is seeded %d times (the later one overwrites the first with settings of a later position)' % len(seeds), scen)
-            if want_seed and seeds and seeds[-1][2] != want_src:
+            # at the '=start' point the iterator's list and a snapshot taken in that very iteration hold the same settings
+            alt = ('snap', want_src[1]) if (want_src and want_src[0] == 'active') else None
+            if want_seed and seeds and seeds[-1][2] not in (want_src, alt):
                 add('seed-source', 'key 0 is seeded from %s, expected %s (the active list as of the last point not beyond the start)' % (seeds[-1][2], want_src), scen)
             # interior copies
             for i, reg in enumerate(combo):
@@ -817,7 +819,8 @@ def P12(m, R):
                         add('interior', 'an interior point is stored as %s, expected key idx - start with its own START and STOP lists' % (stores,), scen)
                 elif reg == '=en':
                     want = truth[2 * i + 1]
-                    ok = (len(stores) == 1 and stores[0][1] == '%s - %s' % (idx, st) and stores[0][2] in (None,) and stores[0][3] == ('STOP', i)) if want else not stores
+                    # copying the stop markers of the end point is optional: the closing block stops every still-active setting anyway
+                    ok = not stores or (len(stores) == 1 and stores[0][1] == '%s - %s' % (idx, st) and stores[0][2] in (None,) and stores[0][3] == ('STOP', i))
                     if not ok:
                         add('end-point', 'the point at the end is stored as %s (stop markers present: %s)' % (stores, want), scen)
                 elif reg in ('<st', '>en') and stores:
